@@ -5,7 +5,7 @@ from vf.pyvc.lib import REG
 from vf import objgen as G, tables as T
 from vf.callsites import purity_obligations
 from vf.check import SRC_ROOT
-from contracts import observables as K
+from contracts import observables as K, timefmt as KT
 from spec.rfc8785 import canon
 
 LEVEL = 'other'
@@ -50,6 +50,7 @@ def run(chk):
     chk.trust('frozen id-contributing lists in spec/tables_v21.json', 'SHA-1 collision freedom for "different values give different ids"')
     for c in (K.choose_one_hash_contract(), K.observable_init_contract()):
         chk.prove(c); chk.canary(c)
+    for k in ('str', 'datetime', 'stixdatetime'): chk.prove(KT.parse_contract(k))        # timestamp values among the contributing properties: one instant, one id, whatever kind of value carried it
     for ob in purity_obligations(SRC_ROOT, ['stix2/base.py::_Observable._generate_id', 'stix2/base.py::_choose_one_hash', 'stix2/base.py::_make_json_serializable',
                                             'stix2/canonicalization/Canonicalize.py::canonicalize', 'stix2/canonicalization/NumberToJson.py::convert2Es6Format'], allow=('_JSON_ESCAPE_MAP',)):
         chk.lemmas.append(ob)
